@@ -32,6 +32,8 @@ CHUNK = 4
 FAMS = ["down", "up", "cache", "remap", "sram", "wb2csr", "chain"]
 
 
+SEEDED_SCALE = {"quick": 3, "thorough": 4}      # multiplies the run counts of the sampled families in plan()
+
 def plan(tier):
     n = 150 if tier == "quick" else 4000
     return [(f, n) for f in FAMS]
